@@ -527,11 +527,20 @@ def loop_generators(repo):
         class _Q:           # a throw-away context: template_loop_shape reports "not found" through it
             def undecided(self, *a, **k):
                 return None
+
+            def violation(self, *a, **k):
+                return None
         sh = template_loop_shape(_Q(), 'x', repo, kind)
         if sh is not None:
             f = sh['template'].func
             # a template seen through an expanded helper belongs to the function that holds the text
             owners.setdefault(f.id, (f, []))[1].append(kind)
+        else:
+            # no block of the expected shape: the generator is still the method of that name
+            cg = repo.classes.get('CodeGenerator')
+            f = cg.methods.get('generate_code_for_loop_%s' % kind) if cg is not None else None
+            if f is not None:
+                owners.setdefault(f.id, (f, []))[1].append(kind)
     return list(owners.values())
 
 
